@@ -160,14 +160,19 @@ pub fn gen_thread(cs: &mut ChoiceStream, g: &GenCfg, thread_no: usize, n_chans: 
         let via = g.via_handles && cs.choose("via_handle", 4) == 0;
         let op = match kind {
             "qdeclare" => {
-                let mode = match cs.choose("mode", 3) {
+                let mode = match cs.choose("mode", 4) {
                     0 => Mode::Sync,
                     1 if nowait_ok => Mode::Nowait,
                     1 => Mode::Sync,
+                    2 if g.via_handles => Mode::SyncThenUse,
+                    2 => Mode::Sync,
                     _ => Mode::Passive,
                 };
-                let name = if mode == Mode::Sync && cs.choose("auto_name", 4) == 0 { String::new() } else { gen_name(cs, &mark, "q") };
-                Op::QueueDeclare { name, durable: b(cs, "f"), exclusive: b(cs, "f"), auto_delete: b(cs, "f"), args: cs.choose("args", 5), mode }
+                let auto = (mode == Mode::Sync && cs.choose("auto_name", 4) == 0) || (mode == Mode::SyncThenUse && cs.choose("auto_name", 2) == 0);
+                let name = if auto { String::new() } else { gen_name(cs, &mark, "q") };
+                // a server-named queue used through its handle: the declare carries the x-mark argument
+                let args = if mode == Mode::SyncThenUse && auto { 1 } else { cs.choose("args", 5) };
+                Op::QueueDeclare { name, durable: b(cs, "f"), exclusive: b(cs, "f"), auto_delete: b(cs, "f"), args, mode }
             }
             "qbind" => Op::QueueBind { queue: gen_name(cs, &mark, "q"), exchange: gen_name(cs, &mark, "x"), rk: gen_name(cs, &mark, "rk"), args: cs.choose("args", 5), nowait: nowait_ok && b(cs, "nowait"), via_queue: via },
             "qunbind" => Op::QueueUnbind { queue: gen_name(cs, &mark, "q"), exchange: gen_name(cs, &mark, "x"), rk: gen_name(cs, &mark, "rk"), args: cs.choose("args", 5), via_queue: via },
